@@ -25,11 +25,13 @@ def faults_for(site):
                 out.append(("optional_into_non_optional", "zopt_i"))
             if t[0] == 'str':
                 out.append(("optional_into_non_optional", "zopt_s"))
+            if t[0] == 'bool':
+                out.append(("optional_into_non_optional", "zopt_b"))
         out.append(("unknown_name", "zz_undefined"))
     elif k == "argcount":
         out.append(("extra_argument", ", 1" if site.extra else "1"))
     elif k == "cond":
-        out += [("non_bool_condition_int", "1"), ("non_bool_condition_str", '"w"')]
+        out += [("non_bool_condition_int", "1"), ("non_bool_condition_str", '"w"'), ("optional_bool_condition", "zopt_b")]
     elif k == "operand":
         op = site.extra
         if op in '+*':
@@ -157,6 +159,19 @@ EXTRA = [
     ("list_literal_wrong_elem", 'print "@@RUN@@"\nl: [int...] = [1, "a"]\n'),
     ("push_wrong_type", 'print "@@RUN@@"\nl: [int...] = [1]\nl.push("a")\n'),
     ("compare_str_int", 'print "@@RUN@@"\ns = "a"\nprint s < 1\n'),
+    ("void_fn_into_fn_typed_field", 'print "@@RUN@@"\nclass Hf {\n  cb: fn(int) -> int\n  constructor(self) {\n    self.cb = fn(a: int) -> int {\n      return a + 1\n    }\n  }\n}\nhf = Hf()\nhf.cb = fn(a: int) {\n  print a\n}\n'),
+    ("void_fn_into_fn_typed_list", 'print "@@RUN@@"\nf2 = fn(a: int) -> int {\n  return a * 2\n}\nl: [fn(int) -> int...] = [f2]\nl[0] = fn(a: int) {\n  print a\n}\n'),
+    ("void_fn_into_fn_typed_map", 'print "@@RUN@@"\nm = map[str, fn(int) -> int] { "a": fn(a: int) {\n  print a\n} }\n'),
+    ("wrong_arity_fn_into_fn_typed_field", 'print "@@RUN@@"\nclass Hf {\n  cb: fn(int) -> int\n  constructor(self) {\n    self.cb = fn(a: int) -> int {\n      return a + 1\n    }\n  }\n}\nhf = Hf()\nhf.cb = fn() -> int {\n  return 1\n}\n'),
+    ("wrong_param_type_fn_argument", 'print "@@RUN@@"\nap = fn(f: fn(int) -> int) -> int {\n  return f(1)\n}\nprint ap(fn(s: str) -> int {\n  return 1\n})\n'),
+    ("void_closure_returns_value_in_nested_block", 'print "@@RUN@@"\nouter = fn(a: int) -> int {\n  inner = fn(b: int) {\n    if b > 1 {\n      return b\n    }\n  }\n  inner(a)\n  return a\n}\nprint outer(3)\n'),
+    ("optional_bool_condition", 'print "@@RUN@@"\nob: bool? = nil\nif ob {\n  print 1\n}\n'),
+    ("optional_bool_while_condition", 'print "@@RUN@@"\nob: bool? = true\nwhile ob {\n  break\n}\n'),
+    ("optional_bool_assert", 'print "@@RUN@@"\nob: bool? = true\nassert ob\n'),
+    ("not_on_optional_bool", 'print "@@RUN@@"\nob: bool? = true\nprint !ob\n'),
+    ("mixed_list_literal_into_open_list", 'print "@@RUN@@"\nl: [int...] = [10, "twenty", 30]\nprint l\n'),
+    ("mixed_list_literal_returned", 'print "@@RUN@@"\nf = fn() -> [int...] {\n  return [1, 2, "three"]\n}\nprint f()\n'),
+    ("mixed_list_literal_argument", 'print "@@RUN@@"\nf = fn(l: [str...]) -> int {\n  return l.len()\n}\nprint f(["a", 2])\n'),
     ("call_result_of_call_arg_type", 'print "@@RUN@@"\nf = fn(a: str) -> int {\n  return 1\n}\ng = fn(b: int) -> int {\n  return b\n}\nprint f(g(1))\n'),
 ]
 
